@@ -268,6 +268,13 @@ func (dc *ClientDnsConnection) VersionHandshake() (err error) {
 		}, time.Second*time.Duration(i))
 		if err == nil {
 			response := resp.(*commands.VersionResponse)
+			if response.Err != nil {
+				// The server refused us (other protocol version, no free session): there is no
+				// session and the user id in the answer is not ours
+				err = response.Err
+				log.WithError(err).Infof("Server refused the version check: %v", err)
+				continue
+			}
 			dc.userId = response.UserId
 
 			log.Debugf("Version ok, both using protocol v 0x%08x. You are user #%d", ProtocolVersion, dc.userId)
